@@ -434,10 +434,16 @@ class UpdateCollection(Message):
                 return
 
             yield self._message(UpdateCollection.prefix(withdraws) + UpdateCollection.prefix(attr) + announced)
-            announced = bytes(packed)
-            announced_size = packed_size
             withdraws = b''
             withdraws_size = 0
+            if packed_size > msg_size:
+                # this prefix does not fit even alone: it can not be sent (same outcome as above)
+                log.critical(lazymsg('update.pack.error reason=attributes_too_large'), 'parser')
+                announced = b''
+                announced_size = 0
+                continue
+            announced = bytes(packed)
+            announced_size = packed_size
 
         # Then pack all withdraws (if include_withdraw is True)
         if include_withdraw:
@@ -457,10 +463,15 @@ class UpdateCollection(Message):
                     yield self._message(UpdateCollection.prefix(withdraws) + UpdateCollection.prefix(attr) + announced)
                 else:
                     yield self._message(UpdateCollection.prefix(withdraws) + UpdateCollection.prefix(b'') + announced)
-                withdraws = bytes(packed)
-                withdraws_size = packed_size
                 announced = b''
                 announced_size = 0
+                if packed_size > msg_size:
+                    log.critical(lazymsg('update.pack.error reason=attributes_too_large'), 'parser')
+                    withdraws = b''
+                    withdraws_size = 0
+                    continue
+                withdraws = bytes(packed)
+                withdraws_size = packed_size
 
         if announced or withdraws:
             if announced:
@@ -484,41 +495,30 @@ class UpdateCollection(Message):
             mp_announce = MPNLRICollection.from_routed(announce_routed, {}, afi, safi)
             mp_withdraw = MPNLRICollection(withdraw_nlris, {}, afi, safi)
 
-            for mprnlri in mp_announce.packed_reach_attributes(negotiated, msg_size - len(withdraws + announced)):
+            # the IPv4 routes have all been sent above: every MP attribute gets the whole room, and
+            # a message is closed as soon as the next attribute would not fit with what it holds
+            for mprnlri in mp_announce.packed_reach_attributes(negotiated, msg_size):
                 if mp_reach:
-                    yield self._message(
-                        UpdateCollection.prefix(withdraws) + UpdateCollection.prefix(attr + mp_reach) + announced
-                    )
-                    announced = b''
-                    withdraws = b''
+                    yield self._message(UpdateCollection.prefix(b'') + UpdateCollection.prefix(attr + mp_reach))
                 mp_reach = mprnlri
 
             if include_withdraw:
-                for mpurnlri in mp_withdraw.packed_unreach_attributes(
-                    negotiated,
-                    msg_size - len(withdraws + announced + mp_reach),
-                ):
+                for mpurnlri in mp_withdraw.packed_unreach_attributes(negotiated, msg_size):
                     if mp_unreach:
-                        yield self._message(
-                            UpdateCollection.prefix(withdraws)
-                            + UpdateCollection.prefix(mp_unreach + attr + mp_reach)
-                            + announced,
-                        )
-                        mp_reach = b''
-                        announced = b''
-                        withdraws = b''
+                        yield self._message(UpdateCollection.prefix(b'') + UpdateCollection.prefix(mp_unreach + attr))
                     mp_unreach = mpurnlri
+
+            # the last MP_UNREACH_NLRI shares its message with the last MP_REACH_NLRI when both fit
+            if mp_reach and mp_unreach and len(mp_reach) + len(mp_unreach) > msg_size:
+                yield self._message(UpdateCollection.prefix(b'') + UpdateCollection.prefix(attr + mp_reach))
+                mp_reach = b''
 
             # with include_withdraw False a family holding only withdraws has nothing to send: an
             # UPDATE without any NLRI would be read by the peer as an End-of-RIB marker
-            if mp_reach or mp_unreach or announced or withdraws:
+            if mp_reach or mp_unreach:
                 yield self._message(
-                    UpdateCollection.prefix(withdraws)
-                    + UpdateCollection.prefix(mp_unreach + attr + mp_reach)
-                    + announced,
+                    UpdateCollection.prefix(b'') + UpdateCollection.prefix(mp_unreach + attr + mp_reach),
                 )  # yield mpr/mpur per family
-            withdraws = b''
-            announced = b''
 
     def pack_messages(self, negotiated: Negotiated, include_withdraw: bool = True) -> Generator['Update', None, None]:
         """Pack this UpdateCollection into wire-format Update messages.
